@@ -23,7 +23,7 @@ GARBAGE = ('nan', 'huge', 'stale', 'inf', 'zero')
 LENGTHS = [1, 2, 3, 4, 5, 8, 9]
 
 TIERS = {
-    'C18': {'quick': {'runs': 6000, 'budget_s': 80, 'chunk': 40},
+    'C18': {'quick': {'runs': 20000, 'budget_s': 100, 'chunk': 50},
             'thorough': {'runs': 300000, 'budget_s': 1800, 'chunk': 200}},
 }
 
